@@ -39,6 +39,16 @@ def env():
     return _env
 
 
+_lax = None
+
+
+def lax_env():
+    global _lax
+    if _lax is None:
+        _lax = drv.make_env({"extra": True, "mode": "lax"})
+    return _lax
+
+
 PNAMES = ["p0", "p1", "p2"]
 KNAMES = ["p0", "p1", "p2", "z0", "z1"]
 BODY = (
@@ -113,6 +123,12 @@ def with_source(ops: list) -> str:
             out.append("<{{ " + op[1] + " }}>")
         elif op[0] == "assign":
             out.append("{% assign " + op[1] + " = '" + op[2] + "' %}")
+        elif op[0] == "for":
+            out.append("{% for i in (1.." + str(op[1]) + ") %}" + with_source(op[2]) + "{% endfor %}")
+        elif op[0] in ("break", "continue"):
+            out.append("{% " + op[0] + " %}")
+        elif op[0] == "err":
+            out.append("{{ 1 | divided_by: 0 }}")  # a render error: raised in strict mode, suppressed in lax mode
         else:
             args = ", ".join(f"{k}: " + (f"'{v[1]}'" if v[0] == "lit" else v[1]) for k, v in op[1].items())
             out.append("{% with " + args + " %}" + with_source(op[2]) + "{% endwith %}")
@@ -131,21 +147,49 @@ def with_expected(ops: list, glob: dict[str, str]) -> str:
             return locals_[name]
         return glob.get(name, "")
 
-    def run(ops2: list) -> str:
-        out = []
+    class _Interrupt(Exception):
+        def __init__(self, kind):
+            self.kind = kind
+
+    class _Abort(Exception):
+        """A render error in lax mode: the top-level node it happened in is abandoned (what it wrote so far stays), the next one renders."""
+
+    buf: list[str] = []
+
+    def run(ops2: list) -> None:
         for op in ops2:
             if op[0] == "out":
-                out.append("<" + lookup(op[1]) + ">")
+                buf.append("<" + lookup(op[1]) + ">")
             elif op[0] == "assign":
                 locals_[op[1]] = op[2]
+            elif op[0] == "err":
+                raise _Abort()
+            elif op[0] in ("break", "continue"):
+                raise _Interrupt(op[0])
+            elif op[0] == "for":
+                for _i in range(op[1]):
+                    depth = len(stack)
+                    try:
+                        run(op[2])
+                    except _Interrupt as it:
+                        del stack[depth:]  # whatever the loop body pushed goes out of scope with it
+                        if it.kind == "break":
+                            break
             else:
                 ns = {k: (v[1] if v[0] == "lit" else lookup(v[1])) for k, v in op[1].items()}
                 stack.append(ns)
-                out.append(run(op[2]))
-                stack.pop()
-        return "".join(out)
+                try:
+                    run(op[2])
+                finally:
+                    stack.pop()
 
-    return run(ops)
+    for top in ops:
+        depth0 = len(stack)
+        try:
+            run([top])
+        except _Abort:
+            del stack[depth0:]
+    return "".join(buf)
 
 
 def judge(ctx: core.Ctx, case: dict[str, Any]) -> None:
@@ -165,7 +209,12 @@ def judge(ctx: core.Ctx, case: dict[str, Any]) -> None:
         data = {"g": "GLOBAL", "x": "GX"}
         exp = with_expected(case["ops"], data)
         sig = "with:" + ("nested" if any(op[0] == "with" and any(o2[0] == "with" for o2 in op[2]) for op in case["ops"]) else "flat")
-    o = drv.parse_and_render(env(), src, data, use_async=case.get("async", False))
+        flat = repr(case["ops"])
+        if "'break'" in flat or "'continue'" in flat or "'err'" in flat:
+            sig += "+block-left-by-interrupt-or-error"
+            ctx.count("with_blocks_left_early")
+    e = lax_env() if case["kind"] != "macro" and "'err'" in repr(case["ops"]) else env()
+    o = drv.parse_and_render(e, src, data, use_async=case.get("async", False))
     if not o.ok:
         ctx.evaluations += 1
         ctx.violation(f"raises-{o.err_class}:{sig}", f"{src!r:.300} raised {o.err_class}: {drv.safe_str(o.exc)[:100]}")
@@ -193,11 +242,20 @@ def classify_macro(case: dict[str, Any]) -> str:
     return "+".join(parts) or "plain"
 
 
-def gen_with(rng, depth: int = 0) -> list:
+def gen_with(rng, depth: int = 0, in_for: bool = False) -> list:
     ops: list = []
     names = ["x", "y", "w", "g", "nope"]
     for _ in range(rng.randint(2, 5)):
         r = rng.random()
+        if in_for and r < 0.08:
+            ops.append([rng.choice(["break", "continue"])])
+            break
+        if r < 0.05:
+            ops.append(["err"])
+            continue
+        if r < 0.12 and depth < 3:
+            ops.append(["for", rng.choice([1, 2, 3]), gen_with(rng, depth + 1, True)])
+            continue
         if r < 0.4:
             ops.append(["out", rng.choice(names)])
         elif r < 0.6:
@@ -206,7 +264,10 @@ def gen_with(rng, depth: int = 0) -> list:
             bound = rng.sample(["x", "y", "w", "g"], rng.randint(1, 3))
             # a value may name a variable that the same tag binds: it is still evaluated in the enclosing scope
             args = {k: (["lit", rng.choice(["W1", "W2", "W3"])] if rng.random() < 0.6 else ["var", rng.choice(names)]) for k in bound}
-            ops.append(["with", args, gen_with(rng, depth + 1) + [["out", bound[0]]]])
+            inner = gen_with(rng, depth + 1, in_for)
+            if not (inner and inner[-1][0] in ("break", "continue")):
+                inner = inner + [["out", bound[0]]]
+            ops.append(["with", args, inner])
     ops.append(["out", "x"])
     return ops
 
